@@ -63,7 +63,7 @@ def check_sets_and_listings(ctx, f: FuncInfo, rule_set: str, rule_fs: str) -> No
             if node in par.args or any(kw.value is node for kw in par.keywords):
                 if d in ORDER_FREE_CONSUMERS:
                     return "free", par
-                if d in ("list", "tuple", "enumerate", "iter", "next", "reversed", "zip", "map", "filter", "itertools.chain", "collections.OrderedDict", "dict"):
+                if d in ("list", "tuple", "enumerate", "iter", "next", "reversed", "zip", "map", "filter", "itertools.chain", "collections.OrderedDict", "dict", "str", "repr"):
                     return "ordered", par
                 if isinstance(par.func, ast.Attribute) and par.func.attr == "join":
                     return "ordered", par
@@ -97,6 +97,12 @@ def check_sets_and_listings(ctx, f: FuncInfo, rule_set: str, rule_fs: str) -> No
                     return "free", who
             return "ordered", comp
         if isinstance(par, ast.Starred):
+            return "ordered", par
+        if isinstance(par, ast.FormattedValue) and par.value is node:
+            # the text of a set lists its elements in iteration order; texts of
+            # assertion failures / raised exceptions are crash diagnostics, not output
+            if _in_crash_message(par, parents):
+                return "pass", par
             return "ordered", par
         if isinstance(par, ast.Compare):
             return "free", par
